@@ -1,7 +1,7 @@
 (* C11 — decoding of trees / histories, evaluation with the model, canonical printing. *)
 From Coq Require Import ZArith List String Bool Arith.
 Import ListNotations.
-From TD Require Import Lib.Sexp Model.C11_Layout Model.C11_Tree Model.C11_Formats.
+From TD Require Import Lib.Sexp Model.C11_Layout Model.C11_Tree Model.C11_Formats Model.C11_Jagged.
 Open Scope string_scope.
 Open Scope list_scope.
 
@@ -118,6 +118,93 @@ Definition dec_lspec (s : sexp) : option lspec :=
 Definition enc_dres (d : dres) : sexp :=
   match d with DOk l => SL [SA "ok"; enc_leaf l] | DViewErr => SA "view-error" | DShapeErr => SA "shape-error" end.
 
+
+(* ---------------------------------------------------------------- trees with jagged tensors / lazy stacks / tensorclasses
+   (jnode CLS (ENT ...));  CLS = (td META) | (tc id META) | (lazy stack_dim NAME locked)
+   ENT = (t "k" LEAF) | (njt "k" VALUES LENGTHS? OFFSETS) | (nt "k" payload (bs)) | (td "k" TREE) *)
+Definition dec_cls (s : sexp) : option jcls :=
+  match s with
+  | SL [SA "td"; m] => option_map CTd (dec_meta m)
+  | SL [SA "tc"; i; m] => match dec_nat i, dec_meta m with Some i, Some m => Some (CTc i m) | _, _ => None end
+  | SL [SA "lazy"; d; n; l] =>
+      match dec_nat d, dec_opt dec_str n, dec_bool l with Some d, Some n, Some l => Some (CLazy d n l) | _, _, _ => None end
+  | _ => None
+  end.
+Definition enc_cls (c : jcls) : sexp :=
+  match c with
+  | CTd m => SL [SA "td"; enc_meta m]
+  | CTc i m => SL [SA "tc"; enc_nat i; enc_meta m]
+  | CLazy d n l => SL [SA "lazy"; enc_nat d; enc_opt enc_str n; enc_bool l]
+  end.
+
+Fixpoint dec_jtree (s : sexp) : option jtree :=
+  match s with
+  | SL [SA "jnode"; c; SL es] =>
+      match dec_cls c,
+            (fix go (l : list sexp) : option jforest :=
+               match l with
+               | [] => Some JNil
+               | SL [SA "t"; SA k; lf] :: r =>
+                   match dec_leaf lf, go r with Some lf, Some r => Some (JLeaf k lf r) | _, _ => None end
+               | SL [SA "njt"; SA k; v; ol; o] :: r =>
+                   match dec_leaf v, dec_opt dec_leaf ol, dec_leaf o, go r with
+                   | Some v, Some ol, Some o, Some r => Some (JNjt k v ol o r) | _, _, _, _ => None end
+               | SL [SA "nt"; SA k; SZ p; bs] :: r =>
+                   match dec_list dec_nat bs, go r with Some bs, Some r => Some (JNonT k p bs r) | _, _ => None end
+               | SL [SA "td"; SA k; t] :: r =>
+                   match dec_jtree t, go r with Some t, Some r => Some (JSub k t r) | _, _ => None end
+               | _ => None
+               end) es with
+      | Some c, Some f => Some (JNode c f)
+      | _, _ => None end
+  | _ => None
+  end.
+
+Fixpoint enc_jtree (t : jtree) : sexp :=
+  match t with JNode c f => SL [SA "jnode"; enc_cls c; SL (enc_jforest f)] end
+with enc_jforest (f : jforest) : list sexp :=
+  match f with
+  | JNil => []
+  | JLeaf k l r => SL [SA "t"; SA k; enc_leaf l] :: enc_jforest r
+  | JNjt k v ol o r => SL [SA "njt"; SA k; enc_leaf v; enc_opt enc_leaf ol; enc_leaf o] :: enc_jforest r
+  | JNonT k p bs r => SL [SA "nt"; SA k; SZ p; enc_list enc_nat bs] :: enc_jforest r
+  | JSub k t r => SL [SA "td"; SA k; enc_jtree t] :: enc_jforest r
+  end.
+
+Fixpoint enc_jmtree (mt : jmtree) : sexp :=
+  match mt with
+  | JMNode c nts lvs subs =>
+      SL [SA "mnode"; enc_cls c;
+          SL (map (fun x => SL [SA (fst x); SZ (fst (snd x)); enc_list enc_nat (snd (snd x))]) nts);
+          SL (map (fun x => SL [SA (fst x); enc_nat (r_dt (snd x)); enc_nat (r_esz (snd x)); enc_list enc_nat (r_shape (snd x));
+                                enc_seg (r_seg (snd x))]) lvs);
+          SL (enc_jmforest subs)]
+  end
+with enc_jmforest (s : jmforest) : list sexp :=
+  match s with JMNil => [] | JMCons k mt r => SL [SA k; enc_jmtree mt] :: enc_jmforest r end.
+
+Definition enc_jerr (e : jerr) : sexp :=
+  SA (match e with JView => "view" | JShape => "shape" | JUnbound => "unbound" | JNjtKey => "njt-key" | JLazyKey => "lazy-key" end).
+Definition enc_jres {X} (f : X -> sexp) (r : jres X) : sexp :=
+  match r with JOk x => SL [SA "ok"; f x] | JRaised e => SL [SA "raised"; enc_jerr e] end.
+
+Definition dispatch_j (cmd : string) (args : list sexp) : option sexp :=
+  match cmd, args with
+  (* writer (metadata dict, storage bytes) and the reader applied to them *)
+  | "jcodec", [t] =>
+      option_map (fun t =>
+        let mt := fst (jmeta_t align_unit true t 0) in
+        let st := jencode align_unit true t in
+        SL [enc_jmtree mt; enc_list enc_Z st; enc_jres enc_jtree (jrebuild_t true st false mt)]) (dec_jtree t)
+  (* the copy tasks of consolidate(num_threads > 0) completed in the given order, on a storage with the given content *)
+  | "threads", [ls; init; order] =>
+      match dec_list dec_leaf ls, dec_list dec_Z init, dec_list dec_nat order with
+      | Some ls, Some init, Some order =>
+          Some (enc_list enc_Z (run_tasks init (pick_tasks (tasks_from align_unit true 0 ls) order)))
+      | _, _, _ => None end
+  | _, _ => None
+  end.
+
 Definition dispatch (cmd : string) (args : list sexp) : option sexp :=
   match cmd, args with
   | "layout", [np; ls] =>
@@ -155,5 +242,5 @@ Definition dispatch (cmd : string) (args : list sexp) : option sexp :=
       | Some s, Some g => Some (match load_t g (state_dict s) with
                                 | LDone t => SL [SA "ok"; enc_tree t] | LExc e => SL [SA "raised"; enc_err e] | LOut => SA "unmodelled" end)
       | _, _ => None end
-  | _, _ => None
+  | _, _ => dispatch_j cmd args
   end.
